@@ -122,6 +122,32 @@ func c08Jobs(tier string) []Job {
 			jobs = append(jobs, Job{Scenario: &sc2, Bound: rbound, Race: true})
 		}
 	}
+	// a FULL write buffer (capacity 1: one new item in the applier's hand, one buffered): Del and
+	// Wait then park on their blocking send in the middle of the call, and the other thread's
+	// call (Clear's stop / drain handshake above all) meets them there
+	{
+		cfg := Cfg{NumCounters: 16, MaxCost: 4, BufferItems: 2, SetBuf: 1, TTLTick: 2, BucketSecs: 1}
+		setup := []Op{{K: "set", Key: 1, Cost: 1}, {K: "wait"}, {K: "set", Key: 2, Cost: 1}, {K: "set", Key: 3, Cost: 1}}
+		pairs := [][2]string{{"del", "clear"}, {"wait", "clear"}, {"del", "del"}, {"del", "wait"}, {"del", "set"}, {"wait", "wait"}, {"del", "get"}, {"wait", "updmax"}}
+		for _, pr := range pairs {
+			bound, rbound := 2, 1
+			if heavy(pr[0]) || heavy(pr[1]) {
+				bound, rbound = 1, 0
+			}
+			if tier == "thorough" {
+				bound++
+				rbound++
+			}
+			ta := []Op{c08Op(pr[0], 1)}
+			tb := []Op{c08Op(pr[1], 1), {K: "get", Key: 1}}
+			sc := &Scenario{Name: fmt.Sprintf("fullbuffer/%s|%s", pr[0], pr[1]), Cfg: cfg, Setup: cp(setup), Threads: [][]Op{ta, tb}, Epilogue: cp(epi)}
+			jobs = append(jobs, Job{Scenario: sc, Bound: bound})
+			sc2 := *sc
+			sc2.Setup, sc2.Epilogue = cp(setup), cp(epi)
+			sc2.Threads = [][]Op{cp(ta), cp(tb)}
+			jobs = append(jobs, Job{Scenario: &sc2, Bound: rbound, Race: true})
+		}
+	}
 	// configuration variants of the property's quantifier: the smallest counter table (an aging
 	// reset every 2 recorded accesses), Get buffers of 1 (every Get hands a batch to the policy
 	// goroutine), no callbacks, internal cost on
